@@ -119,6 +119,15 @@ var extTypes = []ExtType{
 	{"Mu", []string{"Lambda"}, nil},
 	// two own-vocabulary paths to Alpha, one of them through Beta (from which properties are withheld)
 	{"Nu", []string{"Alpha", "Delta"}, nil},
+	// lattice shapes: a parent list that names an ancestor which is already reached through an earlier
+	// parent BEFORE a parent that is new (and the redundant-parent form)
+	{"Auditable", []string{"as:Object"}, nil},
+	{"Dossier", []string{"as:Object"}, nil},
+	{"Ledger", []string{"as:Object", "Auditable"}, nil},
+	{"Bulletin", []string{"Dossier", "Ledger"}, nil},
+	{"Chapter", []string{"Dossier"}, nil},
+	{"Folio", []string{"Chapter", "as:Object", "Auditable"}, []string{"Gamma"}},
+	{"Leaflet", []string{"Folio", "Bulletin"}, nil},
 }
 
 // NameClashVocab: a type that shares its NAME with a type of the referenced vocabulary (as the
